@@ -85,7 +85,7 @@ def pipeline_check(ctx, prop_file, focus, n=None):
         f = {}
         if force == "default_words":
             f = {"fw": None, "lw": None}
-        sc = pipe.gen_scenario(rng, f)
+        sc = pipe.gen_scenario(rng, f) if (rng.random() > 0.03 or force == "custom_words") else pipe.gen_tiny(rng)
         if force == "custom_words" and not (sc["fw"] or sc["lw"]):
             sc = pipe.gen_scenario(rng, {"fw": rng.choice(pipe.CUSTOM_WORDS + [None]), "lw": rng.choice(pipe.CUSTOM_WORDS)})
         scs.append(sc)
